@@ -542,7 +542,8 @@ IP::security_type IP::security_type::from_option(const option& opt)  {
 }
 
 IP::generic_route_option_type IP::generic_route_option_type::from_option(const option& opt)  {
-    if (opt.data_size() < 1 + sizeof(uint32_t) || ((opt.data_size() - 1) % sizeof(uint32_t)) != 0) {
+    // The pointer octet followed by any number of addresses, none included (RFC 791)
+    if (opt.data_size() < 1 || ((opt.data_size() - 1) % sizeof(uint32_t)) != 0) {
         throw malformed_option();
     }
     generic_route_option_type output;
